@@ -4,7 +4,9 @@ import ExoVerif.Model.Auth
 
 Decision logic stated outright (Cedar style): for each entry point, `admit … = true` implies the
 caller is the rightful one. The decision functions mirror the code as it is; two of them do not
-satisfy the property's words and are refuted with a witness (F-10a, F-10b).
+satisfy the property's words and are refuted with a witness (F-10b: opt-in/out and BLS registration
+through the AVS precompile). F-10a (forged oracle price) was repaired in the code (8ec350f) and its
+statement is now a theorem.
 -/
 namespace ExoVerif.Auth
 
@@ -55,24 +57,21 @@ theorem C10_params_open_off_mainnet (st : AuthState) (r : Request) (hm : st.main
     (hs : r.sig = .valid) (ho : r.arg0 = r.origin) : admitUpdateParams st r = true := by
   simp [admitUpdateParams, hm, hs, ho]
 
-/-- price submissions: only for an address with a validator entry whose claimed key matches it … -/
-theorem C10_oraclePrice_admit_implies_validator_partial (st : AuthState) (r : Request)
-    (h : admitOraclePrice st r = true) : st.isValidator r.arg0 = true ∧ r.sig ≠ .noPubKey := by
-  simp only [admitOraclePrice, Bool.and_eq_true, bne_iff_ne, ne_eq] at h
-  exact ⟨h.2, h.1⟩
+/-- price submissions take effect only when signed by the consensus key of the validator they are
+attributed to (F-10a, fixed by 8ec350f: the result of VerifySignature is now checked) -/
+theorem C10_oraclePrice_admit_implies_rightful (st : AuthState) (r : Request)
+    (h : admitOraclePrice st r = true) : r.sig = .valid ∧ st.isValidator (actsFor .oraclePrice r) = true := by
+  simp only [admitOraclePrice, Bool.and_eq_true, beq_iff_eq] at h
+  exact h
 
-/-- … but "signed by the consensus key of the validator" is not what the code decides (F-10a) -/
-def C10_oraclePrice_full : Prop :=
-  ∀ (st : AuthState) (r : Request), admitOraclePrice st r = true → r.sig = .valid
+/-- in particular a forged or key-mismatching submission is rejected for every state -/
+theorem C10_oraclePrice_forged_rejected (st : AuthState) (r : Request) (h : r.sig ≠ .valid) :
+    admitOraclePrice st r = false := by
+  simp [admitOraclePrice, h]
 
 def exState : AuthState :=
   { gateway := 1, avsOwners := fun a => if a = 50 then [60] else [], isAVS := fun a => a == 50 || a == 77,
     isOperator := fun a => a == 20, isValidator := fun a => a == 30, authority := 99, mainnet := true }
-
-theorem C10_oraclePrice_full_fails : ¬ C10_oraclePrice_full := by
-  intro h
-  have := h exState { callerAddress := 0, origin := 66, arg0 := 30, sig := .forged } (by decide)
-  cases this
 
 /-- operator opt-in/out and BLS key registration through the AVS precompile: the property wants them
 to take effect only for the signer of the transaction -/
@@ -106,5 +105,7 @@ example : admitManageAVS exState { callerAddress := 50, origin := 61, arg0 := 61
 example : admitUpdateParams exState { callerAddress := 0, origin := 99, arg0 := 99, sig := .valid } = true := by decide
 example : admitUpdateParams exState { callerAddress := 0, origin := 7, arg0 := 7, sig := .valid } = false := by decide
 example : admitSdkMsg { callerAddress := 0, origin := 7, arg0 := 7, sig := .forged } = false := by decide
+example : admitOraclePrice exState { callerAddress := 0, origin := 30, arg0 := 30, sig := .valid } = true := by decide
+example : admitOraclePrice exState { callerAddress := 0, origin := 66, arg0 := 30, sig := .forged } = false := by decide
 
 end ExoVerif.Auth
